@@ -114,7 +114,7 @@ def main(run: Run):
     run.assumptions += BASE_ASSUMPTIONS_L2
     run.functions["amaranth_soc.csr.bus.Decoder.elaborate"] = "per-configuration (bounded: window sets), all inputs"
     run.functions["amaranth_soc.csr.bus.Decoder.add"] = "exercised; window ranges from bus.memory_map.windows()"
-    run_configs(run, __name__, cfgs)
+    run_configs(run, __name__, cfgs, must_accept=True)      # every generated window set fits by construction
     from . import tree_equiv
     tree_equiv.add_to(run, "C06")
     from . import patterns_l1
